@@ -1,6 +1,7 @@
 import PoorProofs.Lemmas.Query
 import PoorProofs.Props.C18
 import PoorProofs.Props.JsonCodec
+import PoorProofs.Lemmas.ReadAll
 /-
 C10 - query, form and JSON data reach handlers exactly as sent.
 -/
@@ -171,6 +172,35 @@ theorem C10_json_any_spelling {v : Poor.Json.J} {s : Str} (h : Poor.Json.Txt v s
     (h1 : Poor.Json.AllWs w1) (h2 : Poor.Json.AllWs w2) :
     parseJsonRequest (Poor.Headers.utf8enc (w1 ++ (s ++ w2))) = some v :=
   JsonCodec.loadBytes_any_spelling h w1 w2 h1 h2
+
+/-! ### a body that arrives in pieces -/
+
+/-- **the pieces do not matter.**  The input holds the declared body followed by whatever comes next on the
+    connection, and hands over fewer bytes than asked for, read after read, as the script says (any script).
+    `read_length` - what the `auto_data` buffer, `Request.read` and the urlencoded form reader take the body
+    with - returns exactly the body and leaves the input exactly behind it. -/
+theorem C10_body_in_pieces (body next : Bytes) (script : List Nat) :
+    (ReadAll.readLength { src := body ++ next, script := script } body.length).1 = body ∧
+    (ReadAll.readLength { src := body ++ next, script := script } body.length).2.src = next := by
+  have h := ReadAll.readLength_spec { src := body ++ next, script := script } body.length
+  simpa using h
+
+/-- an input that ends before the declared length gives all it has (and the loop ends) -/
+theorem C10_body_cut_short (src : Bytes) (n : Nat) (script : List Nat) (h : src.length ≤ n) :
+    (ReadAll.readLength { src := src, script := script } n).1 = src := by
+  have h' := (ReadAll.readLength_spec { src := src, script := script } n).1
+  simpa [List.take_of_length_le h] using h'
+
+/-- so a JSON value sent is the value exposed however its bytes arrive (`C10_json_value` composed with the reader) -/
+theorem C10_json_in_pieces (v : Poor.Json.J) (h : Poor.Json.JOk v) (next : Bytes) (script : List Nat) :
+    parseJsonRequest (ReadAll.readLength { src := Poor.Json.dumpBytes v ++ next, script := script }
+      (Poor.Json.dumpBytes v).length).1 = some v := by
+  rw [(C10_body_in_pieces _ next script).1]
+  exact C10_json_value v h
+
+example : (ReadAll.readLength { src := [1, 2, 3, 4, 5, 6, 7], script := [0, 1, 0] } 5).1 = [1, 2, 3, 4, 5] ∧
+          (ReadAll.readLength { src := [1, 2, 3, 4, 5, 6, 7], script := [0, 1, 0] } 5).2.src = [6, 7] :=
+  C10_body_in_pieces [1, 2, 3, 4, 5] [6, 7] [0, 1, 0]
 
 /-! ### the body is never read beyond the declared length -/
 
